@@ -364,6 +364,20 @@ fn blob(d: &mut Decoded, rd: &Rd, loc: Loc, kind: &'static str, owner: String) -
     true
 }
 
+/// Decodes a single stream located at (rva, size) inside an arbitrary buffer
+/// (used when a stream writer is driven directly).
+pub fn decode_one(b: &[u8], ty: u32, rva: u64, size: u64) -> Decoded {
+    let rd = Rd { b };
+    let mut d = Decoded { len: b.len() as u64, ..Default::default() };
+    if rd.get(rva, size).is_none() {
+        d.problem("stream-outside-image", format!("[{rva:#x},+{size:#x})"));
+        return d;
+    }
+    d.object(rva, size, "stream", format!("stream {ty:#x}"));
+    decode_stream(&mut d, &rd, ty, rva, size);
+    d
+}
+
 fn decode_stream(d: &mut Decoded, rd: &Rd, ty: u32, rva: u64, size: u64) {
     match ty {
         ST_THREAD_LIST => {
